@@ -43,6 +43,7 @@ def run(chk, tier, seed):
                 chk.violation(dict(obligation='C13.bounded.' + kind, tree=r['tree'], pattern=r['pattern'], exclude=r['exclude'], fl=r['fl'], inline=r['inline'], witness=w),
                               f'glob({r["pattern"]}, exclude={r["exclude"]}{" (inline with NEGATE)" if r["inline"] else ""}, flags={r["fl"]}) on tree {r["tree"]}: {kind}: {w}',
                               replay(r, specs))
+    tilde_clause(chk)
     chk.rule = ('bounded stand-in: lists of 1-4 overlapping / identical / case-variant / BRACE- and SPLIT-produced patterns with 0-2 exclusions (exclude= and inline !p) on '
                 'trees with case variants; the result is compared with the per-pattern results: set equality with the union minus paths matched by an exclusion (tested with a '
                 'trailing separator for directories, DOTGLOB forced); no path twice under the case rule in force; NOUNIQUE = exact concatenation')
@@ -54,3 +55,38 @@ def replay(r, specs):
     return (f"import sys, os; sys.path.insert(0, {REPO!r}); sys.path.insert(0, '/verif')\nfrom wcmatch import glob\nfrom vlib.harness import trees\n"
             f"spec = {specs[r['tree']]!r}\nwith trees.Tree(spec) as t:\n    print(glob.glob(list({r['pattern']}), flags={r['flags']} | glob.U, root_dir=t.root, exclude=list({r['exclude']}) or None))\n"
             f"# reported: {r.get('bad')!r}\nsys.exit(1)\n")
+
+
+def tilde_clause(chk):
+    """GLOBTILDE: an exclusion written `!~/...` is still an exclusion after the tilde is expanded (HOME points at the tree); the expectation for the
+    exclusion is what the same text returns as an INCLUSION pattern on its own (with DOTGLOB), so nothing about negation handling is shared."""
+    import os
+    spec = trees.NAMED['basic']
+    old_home = os.environ.get('HOME')
+    n = 0
+    try:
+        with trees.Tree(spec) as t:
+            os.environ['HOME'] = t.root
+            for incs, excs in ((['~/*'], ['~/a']), (['~/d/*', '~/*.txt'], ['~/d/a']), (['~/**'], ['~/d/**', '~/*.txt']), (['~/d/*'], ['~/nonexistent']), (['~/**/a'], ['~/d/*'])):
+                for fl in (G.G | G.T | G.N, G.G | G.T | G.N | G.D, G.G | G.T | G.N | G.M):
+                    neg = '-' if fl & G.M else '!'
+                    res = G.glob(incs + [neg + e for e in excs], flags=fl | G.U)
+                    resk = G.glob(incs, exclude=excs, flags=(fl & ~G.N & ~G.M) | G.U)
+                    union = {x for p in incs for x in G.glob(p, flags=(fl & ~G.N & ~G.M) | G.U)}
+                    gone = {x.rstrip('/') for e in excs for x in G.glob(e, flags=((fl & ~G.N & ~G.M) | G.U | G.D))}
+                    want = {x for x in union if x.rstrip('/') not in gone}
+                    n += 1
+                    chk.case(key=('tilde', str(incs), str(excs), fl), nontrivial=bool(want))
+                    for how, got in (('inline', set(res)), ('exclude=', set(resk))):
+                        if got != want:
+                            rel = lambda xs: sorted(x.replace(t.root, '~') for x in xs)[:5]          # noqa: E731
+                            chk.violation(dict(obligation='C13.bounded.GLOBTILDE-exclusion-is-still-an-exclusion', pattern=str(incs), exclude=str(excs), fl=globrun.LC.flagnames(fl), how=how),
+                                          f'glob({incs} minus {excs} [{how}], {globrun.LC.flagnames(fl)}) with HOME=<tree basic>: extra={rel(got - want)} missing={rel(want - got)}',
+                                          f"import sys, os; sys.path.insert(0, {REPO!r}); sys.path.insert(0, '/verif')\nfrom wcmatch import glob\nfrom vlib.harness import trees\n"
+                                          f"with trees.Tree({spec!r}) as t:\n    os.environ['HOME'] = t.root\n    print(glob.glob({incs + [neg + e for e in excs]!r}, flags={fl} | glob.U))\nsys.exit(1)\n")
+    finally:
+        if old_home is None:
+            os.environ.pop('HOME', None)
+        else:
+            os.environ['HOME'] = old_home
+    chk.bounds['c13_tilde_cases'] = n
